@@ -12,7 +12,7 @@ out = {
     "hooks": {
         "guard": "UNIFEX_VERIF",
         "enable": "verification builds compile /repo's sources with -DUNIFEX_VERIF=1 -include /verif/engine/prelude.hpp (macro-renames std::atomic/mutex/condition_variable/thread/steady_clock to scheduler-controlled types) and link --wrap seams for syscalls; no guarded line exists in /repo",
-        "baseline_off_cmd": "cmake --build /repo/_build -j16 && ctest --test-dir /repo/_build -j8 --timeout 900",
+        "baseline_off_cmd": "cmake --build /repo/_build -j16 -- -k 0; ctest --test-dir /repo/_build -j8 --timeout 900",
         "source_commits": mm.HOOK_COMMITS,
         "add_only": True,
     },
